@@ -9,6 +9,7 @@
   and follow-up activity — no bound on histories, clients or crash points.
 -/
 import Zed.Proofs.StoreBranch
+import Zed.Proofs.StoreFillRef
 namespace Zed.Props.C17
 open Zed.Store
 
@@ -123,6 +124,44 @@ theorem crash_atomic_commit (j : Nat) (hj : j ≠ 0) (s : Sys) (h : ReachB j s) 
           exact ⟨b, tip, att, n, rfl, a4, hent⟩
       · cases hid
   | _ => simp [Proc.ownedId] at hid
+
+/-! ### Crashes under the create-then-fill put discipline (local file engine) -/
+
+/-- **fill_crash_atomic** — with create-then-fill puts a crash can also leave an *empty* entry
+    file, but only as entry HEAD+1 (its creator stopped between the exclusive create and the
+    fill); every entry at or below HEAD is a complete file and the journal replays up to HEAD: a
+    cold reader still sees all or nothing of the interrupted commit. -/
+theorem fill_crash_atomic (j : Nat) (f : FSys) (h : FReach j f) :
+    ∃ e, (∀ n, (f.a.store (.ent j n)).isSome ↔ (1 ≤ n ∧ n ≤ e)) ∧
+      (∀ n, f.half (.ent j n) = true → n = e ∧ headOf f.a.store j + 1 = e) ∧
+      (∀ n, n ≤ headOf f.a.store j → f.half (.ent j n) = false) ∧
+      ∃ t, visibleTable f.a.store j = some t := by
+  obtain ⟨hr, hi⟩ := h.inv
+  obtain ⟨e, h1, h2⟩ := hr.inv12
+  refine ⟨e, h1.range, fun n hh => fill_half_entry_is_end h1 hi n hh, ?_, h2.wf.tableAt_some _ h1.he⟩
+  intro n hn
+  cases hx : f.half (.ent j n) with
+  | false => rfl
+  | true => have := fill_half_entry_is_end h1 hi n hx; omega
+
+/-- The witness for `not_fill_crash_readable`: client 0 commits on the pools journal and is stopped
+    after truncating HEAD (4 storage operations: Get HEAD, exclusive create of entry 1, its fill,
+    truncate HEAD); the fresh client 1 then tries to load the journal, 30 storage operations. -/
+def fillHeadLabels : List FLabel :=
+  [.start 0 (.commit 0 0 (.insert 1 7)), .step 0, .step 0, .step 0, .step 0, .start 1 (.load 0 0)] ++
+    List.replicate 30 (.step 1)
+
+/-- **not_fill_crash_readable** — `crash_readable` is FALSE under create-then-fill puts (harness
+    key C17:fill:head-empty, replayed on the real code): HEAD is rewritten in place, so a crash
+    between its truncation and its fill leaves an empty HEAD; the recovered reader never gets past
+    `Get HEAD` (`readID` retries, then gives up: the journal cannot be opened), although entry 1 is
+    complete. -/
+theorem not_fill_crash_readable :
+    let f := FSys.init.run fillHeadLabels
+    f.reads (.head 0) = some none ∧ f.mid 0 = some (.head 0) ∧
+      ((f.a.cl 1).proc = some (.jp 0 0 .load .rdHead)) ∧ (f.a.cl 1).res = none ∧
+      (f.a.store (.ent 0 1)).isSome ∧ f.half (.ent 0 1) = false := by
+  decide
 
 /-- **crash_readable** — after any crashes the journal replays without error up to HEAD: a cold
     reader gets a table, namely the one before or after the interrupted commit. -/
